@@ -85,8 +85,13 @@ Definition server_send_data (response : response_head) (data : bytes) : list cmd
   let raw := if send_chunked (rs_headers response) then emit_chunk data else data in
   match raw with [] => [] | _ => [Send raw] end.
 
+(* 1xx, 204 and 304 never have a body (fixes/C01-no-last-chunk-after-bodiless-response.diff) *)
+Definition no_body_status (st : Z) : bool :=
+  (Z.leb 100 st && Z.leb st 199) || Z.eqb st 204 || Z.eqb st 304.
+
 Definition server_send_end (request : request_head) (response : response_head) : list cmd :=
-  if negb (bytes_eqb (upper (rq_method request)) HEAD) && send_chunked (rs_headers response)
+  if negb (bytes_eqb (upper (rq_method request)) HEAD) && negb (no_body_status (rs_status response))
+     && send_chunked (rs_headers response)
   then [Send LAST_CHUNK] else [].
 
 Definition forward_response (request : request_head) (response : response_head) (chunks : list bytes) : list cmd :=
